@@ -74,7 +74,7 @@ DECIDING = ["roundtrip:v15", "roundtrip:oaep:sha1", "roundtrip:oaep:sha256", "ro
             "wrapper_cases:v15", "wrapper_cases:oaep", "exhaustive14:wrapper", "exhaustive14:decrypt",
             "refused_too_long:v15", "refused_too_long:oaep", "refused_bad_length", "refused_out_of_range",
             "first_byte_ff_patterns", "odd_size_keys", "keys_built", "tiny_done", "x14_done", "modulus_11_bytes_roundtrips",
-            "retained_results_checked"]
+            "retained_results_checked", "oaep_smallest_modulus:sha1", "oaep_smallest_modulus:sha256", "oaep_smallest_modulus:sha512"]
 
 
 def finalize(agg, tier):
@@ -1166,6 +1166,7 @@ def w_tiny(spec, ctx, L):
     # every modulus size of 11..17 bytes and a few more: full round trip, lengths, patterns
     sizes = [81, 88, 89, 96, 97, 104, 105, 112, 113, 120, 128, 129, 136, 255, 256, 257, 329, 336, 337, 344, 400, 512, 513,
              520, 768]
+    sizes = sorted(set(sizes) | {8 * (2 * h + 2) - d for _, h in HASHES.values() for d in (0, 7, -1)})
     for bits in sizes:
         if ctx.expired():
             ctx.count("budget_cut:tiny")
@@ -1176,9 +1177,13 @@ def w_tiny(spec, ctx, L):
             ctx.count("modulus_11_bytes_roundtrips")
         rt_v15(ctx, L, kd, key)
         bad_lengths(ctx, L, kd, key)
-        for hname in ("sha1", "sha256"):
-            if k >= 2 * HASHES[hname][1] + 2:
+        for hname in HASHES:
+            # sha1 / sha256 on every size that can carry them; every hash on the smallest modulus that can carry it
+            # (k = 2hLen + 2: only the empty message fits) and on the next one
+            if k >= 2 * HASHES[hname][1] + 2 and (hname in ("sha1", "sha256") or k - (2 * HASHES[hname][1] + 2) <= 1):
                 rt_oaep(ctx, L, kd, key, OaepCfg(L, hname, rng.randbytes(rng.choice(LABEL_LENS)), "default", form=bits))
+                if k == 2 * HASHES[hname][1] + 2:
+                    ctx.count("oaep_smallest_modulus:" + hname)
         cipher = L.V15.new(key)
         sents = sentinels(k, rng)
         for desc, em, core in v15_patterns(kd, rng, ctx):
